@@ -15,6 +15,15 @@ func frameTypes() []*Type {
 	return fs
 }
 
+func hasVstr(t *Type) bool {
+	for _, op := range t.fieldOps() {
+		if op.K == "vstr" && op.PW >= 2 {
+			return true
+		}
+	}
+	return false
+}
+
 func hdrSize(f *Frame) int {
 	n := 0
 	for _, o := range f.Hdr {
@@ -57,7 +66,10 @@ func frameValues(g *Gen, t *Type, per int, big bool) []*Val {
 			if !hasList {
 				continue
 			}
-			for _, n := range []int{30, 120, 300} {
+			for _, n := range []int{30, 120, 300, 14000} {
+				if n > 300 && !hasVstr(bt) {
+					continue // only a long text makes a body of more than 65,535 bytes cheaply
+				}
 				g.maxList = n
 				v := g.msgWithKey(t.ID, e, true)
 				body := v.Fs[nh+1]
@@ -77,7 +89,11 @@ func frameValues(g *Gen, t *Type, per int, big bool) []*Val {
 						}
 						body.Fs[i] = l
 					case "vstr":
-						body.Fs[i] = &Val{K: 's', S: g.bytes(n*5, ' ')}
+						l := n * 5
+						if op.PW < 4 && l > 32000 {
+							l = 32000 // several 16-bit-prefixed texts together still exceed 65,535 bytes
+						}
+						body.Fs[i] = &Val{K: 's', S: g.bytes(l, ' ')}
 					}
 				}
 				vs = append(vs, v)
